@@ -430,6 +430,15 @@ def replay(cfg, events):
                             import re
                             text = ("BASE <http://wrong.example/first/> BASE <urn:x:> PREFIX x: <> BASE <http://wrong.example/last/> PREFIX w: <w#>\n"
                                     + re.sub(r"<urn:x:([A-Za-z][A-Za-z0-9]*)>", r"x:\1", text))
+                        elif e.get("prefixed") == "two":
+                            # two prefixes declared for one namespace, both used (alternately); a third one declared twice, for another namespace first
+                            import re
+                            cnt = [0]
+
+                            def alt(m):
+                                cnt[0] += 1
+                                return ("x:" if cnt[0] % 2 else "y:") + m.group(1)
+                            text = "PREFIX x: <urn:x:>\nPREFIX z: <urn:other:>\nPREFIX y: <urn:x:>\nPREFIX z: <urn:x:>\n" + re.sub(r"<urn:x:([A-Za-z][A-Za-z0-9]*)>", alt, text)
                         elif e.get("prefixed"):
                             import re
                             text = "PREFIX x: <urn:x:>\n" + re.sub(r"<urn:x:([A-Za-z][A-Za-z0-9]*)>", r"x:\1", text)
